@@ -11,7 +11,13 @@
 #include <sys/types.h>
 
 static uint64_t h_rng_state;
-static inline void h_seed(uint64_t s) { h_rng_state = s * 0x9E3779B97F4A7C15ull + 0x1234567ull; }
+/* the seed is scrambled (splitmix64 finaliser) so that the streams of consecutive seeds are unrelated: with a
+ * plain affine map the stream of seed+1 is the stream of seed shifted by one draw */
+static inline void h_seed(uint64_t s) {
+  uint64_t z = s * 0x9E3779B97F4A7C15ull + 0x1234567ull;
+  z = (z ^ (z >> 30)) * 0xBF58476D1CE4E5B9ull; z = (z ^ (z >> 27)) * 0x94D049BB133111EBull;
+  h_rng_state = z ^ (z >> 31);
+}
 static inline uint64_t h_rand(void) {
   uint64_t z = (h_rng_state += 0x9E3779B97F4A7C15ull);
   z = (z ^ (z >> 30)) * 0xBF58476D1CE4E5B9ull;
